@@ -3,6 +3,7 @@ package main
 import (
 	"fmt"
 	"strings"
+	"time"
 
 	"github.com/spikeekips/mitum/base"
 	"github.com/spikeekips/mitum/isaac"
@@ -309,6 +310,101 @@ func runC06(c *Ctx) error {
 					b01(cap.Result() == base.VoteResultMajority), b01(isaac.IsSuffrageConfirmBallotFact(cap.Majority())))
 			}
 			c.Case("lvh "+strings.Join(toks, " "), flags+" cap="+capTok)
+		}
+	}
+	return c06ballotbox(c)
+}
+
+// 4. the ballotbox's own position while it counts: the last point is a draw, and one suffrage-confirm ballot of an
+// earlier round or stage of the height arrives carrying the old INIT majority voteproof (with expels).  The box hands
+// that voteproof out; its position must not go back to that old, not suffrage-confirm, INIT position.
+func c06ballotbox(c *Ctx) error {
+	n := 30
+	if c.Thorough() {
+		n = 600
+	}
+	for i := 0; i < n; i++ {
+		size := 3 + c.Intn(2)
+		nodes := make([]base.LocalNode, size)
+		bn := make([]base.Node, size)
+		for j := range nodes {
+			nodes[j] = base.RandomLocalNode()
+			bn[j] = nodes[j]
+		}
+		suf, err := isaac.NewSuffrage(bn)
+		if err != nil {
+			return err
+		}
+		th := base.Threshold(67)
+		box := isaacstates.NewBallotbox(nodes[0].Address(), func() base.Threshold { return th },
+			func(base.Height) (base.Suffrage, bool, error) { return suf, true, nil })
+		point := base.NewPoint(base.Height(int64(33+c.Intn(5))), base.Round(uint64(c.Intn(2))))
+		expelnode := nodes[size-1]
+		ef := isaac.NewSuffrageExpelFact(expelnode.Address(), point.Height()-1, point.Height()+1, "no response")
+		eop := isaac.NewSuffrageExpelOperation(ef)
+		for _, nd := range nodes[:size-1] {
+			_ = eop.NodeSign(nd.Privatekey(), hNetworkID, nd.Address())
+		}
+		expels := []base.SuffrageExpelOperation{eop}
+		efacts := []util.Hash{ef.Hash()}
+		prev, pr := valuehash.RandomSHA256(), valuehash.RandomSHA256()
+		ifact := isaac.NewINITBallotFact(point, prev, pr, efacts)
+		var isfs []base.BallotSignFact
+		for _, nd := range nodes[:size-1] {
+			sf := isaac.NewINITBallotSignFact(ifact)
+			_ = sf.NodeSign(nd.Privatekey(), hNetworkID, nd.Address())
+			isfs = append(isfs, sf)
+		}
+		ivp := isaac.NewINITExpelVoteproof(point)
+		_ = ivp.SetSignFacts(isfs).SetMajority(ifact).SetThreshold(th)
+		ivp.SetExpels(expels)
+		ivp.Finish()
+		// the position the box has reached: a draw later in the height
+		var lastSP base.StagePoint
+		kind := c.Intn(3)
+		switch kind {
+		case 0:
+			lastSP = base.NewStagePoint(point.NextRound(), base.StageINIT)
+		case 1:
+			lastSP = base.NewStagePoint(point, base.StageACCEPT)
+		default:
+			lastSP = base.NewStagePoint(point.NextRound().NextRound(), base.StageINIT)
+		}
+		last, err := isaac.NewLastPoint(lastSP, false, false)
+		if err != nil {
+			return err
+		}
+		if !box.SetLastPoint(last) {
+			continue
+		}
+		voters := 1
+		if c.Chance(1, 4) {
+			voters = 2
+		}
+		for j := 1; j <= voters && j < size-1; j++ {
+			sfact := isaac.NewSuffrageConfirmBallotFact(point, prev, pr, efacts)
+			sf := isaac.NewINITBallotSignFact(sfact)
+			_ = sf.NodeSign(nodes[j].Privatekey(), hNetworkID, nodes[j].Address())
+			_, _ = box.Vote(isaac.NewINITBallot(ivp, sf, nil))
+		}
+		time.Sleep(500 * time.Microsecond)
+		box.Count()
+		var got []string
+	drain:
+		for {
+			select {
+			case vp := <-box.Voteproof():
+				got = append(got, fmt.Sprintf("%v/%v", vp.Point(), vp.Result()))
+			case <-time.After(time.Millisecond):
+				break drain
+			}
+		}
+		after := box.LastPoint()
+		c.Eval(1)
+		c.Count("ballotbox-draw-then-confirm-ballot", fmt.Sprintf("last-kind-%d/handed-out-%d", kind, len(got)))
+		if after.StagePoint.Compare(last.StagePoint) < 0 && !after.IsSuffrageConfirm() {
+			c.Violation("C06:ballotbox-position-went-back", fmt.Sprintf("suffrage of %d, last point %v (draw); %d suffrage-confirm ballot(s) of %v carrying the old INIT majority voteproof: handed out %v, the last point is now %v (majority %v, not suffrage confirm)",
+				size, last.StagePoint, voters, point, got, after.StagePoint, after.IsMajority()), map[string]interface{}{"suffrage": size, "last": last.StagePoint.String(), "point": point.String(), "voters": voters})
 		}
 	}
 	return nil
